@@ -65,11 +65,13 @@ def main(argv=None):
     seed = int(os.environ.get('VERIF_SEED', '0') or 0)
     t0 = time.time()
     suite = load_suite(pid)
-    workroot = os.path.join(VERIF, '.work', pid)
+    workroot = os.path.join(VERIF, '.work', pid + os.environ.get('VERIF_WORKTAG', ''))
     shutil.rmtree(workroot, ignore_errors=True)
     os.makedirs(workroot, exist_ok=True)
     os.makedirs(os.path.join(VERIF, 'evidence'), exist_ok=True)
-    specs = suite["specs"]
+    specs = list(suite["specs"])
+    if tier == 'thorough':
+        specs += suite.get("specs_thorough", [])
     jobs = [(rel, workroot, None) for rel in specs]
     if tier == 'thorough' and suite.get("second_backend", True):
         # every obligation again on an independent SAT solver
